@@ -218,7 +218,7 @@ pub fn any_dev() -> KDev {
 /// Expected text of one error-queue item: `code,"message"` / `code,"message;extended"`.
 pub fn spec_error_item(e: &Error, out: &mut [u8; 96]) -> usize {
     let mut d = [0u8; 40];
-    let n = super::spec::spec_dec(e.get_code() as i128, &mut d);
+    let n = super::spec::spec_dec32(e.get_code() as i32, &mut d);
     let mut k = 0;
     let mut i = 0;
     while i < n {
